@@ -264,6 +264,7 @@ type scenario struct {
 	closeAt time.Duration // <0: close after everything was flushed
 	special string
 	jitter  bool
+	emptyCalls bool
 }
 
 var temporaryCodes = []int16{2, 3, 5, 6, 7, 13, 19, 20, 56}
@@ -314,6 +315,7 @@ func (b *builder) random(idx int, thorough bool) *scenario {
 	sc.compl = sc.async || r.Intn(3) == 0
 	sc.timeout = []time.Duration{2, 3, 5, 8}[r.Intn(4)] * time.Millisecond
 	sc.jitter = r.Intn(2) == 0
+	sc.emptyCalls = r.Intn(8) == 0
 	topics := []string{"t"}
 	if r.Intn(3) == 0 {
 		sc.wtopic = ""
@@ -364,6 +366,9 @@ func (b *builder) random(idx int, thorough bool) *scenario {
 				if sc.wtopic == "" {
 					topic = tname
 				}
+				if sc.wtopic == "" && r.Intn(90) == 0 {
+					topic = "nope" // unknown topic: the metadata lookup fails (code 3), nothing of the call is sent
+				}
 				if r.Intn(80) == 0 { // topic conflict / missing topic
 					if sc.wtopic == "" {
 						topic = ""
@@ -373,6 +378,9 @@ func (b *builder) random(idx int, thorough bool) *scenario {
 				}
 				part := r.Intn(sc.nparts[tname])
 				cs.msgs = append(cs.msgs, b.mkMsg(size, topic, part, r.Intn(12) == 0))
+			}
+			if !sc.async && r.Intn(25) == 0 {
+				cs.cancel = true
 			}
 			calls = append(calls, cs)
 		}
@@ -520,11 +528,21 @@ func run(sc *scenario, out *bufio.Writer) {
 		go func(ci int) {
 			defer wg.Done()
 			jr := rand.New(rand.NewSource(int64(ci) + 77))
+			if sc.emptyCalls && ci%2 == 0 {
+				if err := w.WriteMessages(context.Background()); err != nil && !errors.Is(err, io.ErrClosedPipe) {
+					panic("empty WriteMessages returned " + err.Error())
+				}
+			}
 			for _, lc := range live[ci] {
 				if sc.jitter && jr.Intn(2) == 0 {
 					time.Sleep(time.Duration(jr.Intn(1500)) * time.Microsecond)
 				}
 				ctx := context.Background()
+				if lc.spec.cancel {
+					var cancel context.CancelFunc
+					ctx, cancel = context.WithCancel(ctx)
+					time.AfterFunc(time.Duration(jr.Intn(1500))*time.Microsecond, cancel)
+				}
 				err := w.WriteMessages(ctx, lc.msgs...)
 				rmu.Lock()
 				results = append(results, result{lc.spec.id, kafka.VerifErrCode(err)})
@@ -548,17 +566,22 @@ func run(sc *scenario, out *bufio.Writer) {
 		f.open("p1")
 	case sc.special == "holdretry":
 		f.waitReached("p1")
-		wg.Wait() // all later (async) calls are queued behind the held batch
+		waitTimeout(&wg, 6*time.Second) // all later (async) calls are queued behind the held batch
 		time.Sleep(2 * sc.timeout)
 		f.open("p1")
 	case sc.closeAt >= 0:
 		time.Sleep(sc.closeAt)
 		go doClose()
 	}
-	wg.Wait()
+	callersStuck := !waitTimeout(&wg, 6*time.Second)
 	// every accepted message must get produced without further input (async: poll; sync calls have returned)
 	unsent := 0
-	if sc.closeAt < 0 && sc.special != "closewin" {
+	if callersStuck {
+		// a synchronous caller never got its batch completed: flush through Close so that the run ends
+		unsent = 1
+		go doClose()
+		waitTimeout(&wg, 6*time.Second)
+	} else if sc.closeAt < 0 && sc.special != "closewin" {
 		deadline := time.Now().Add(sc.timeout + 4*time.Second)
 		for {
 			unsent = 0
@@ -663,6 +686,17 @@ func run(sc *scenario, out *bufio.Writer) {
 	fmt.Fprintf(&sb, " | unsent %d | multi %d | stuck %d", unsent, f.multi, b2i(stuck))
 	out.WriteString(sb.String())
 	out.WriteString("\n")
+}
+
+func waitTimeout(wg *sync.WaitGroup, d time.Duration) bool {
+	ch := make(chan struct{})
+	go func() { wg.Wait(); close(ch) }()
+	select {
+	case <-ch:
+		return true
+	case <-time.After(d):
+		return false
+	}
 }
 
 func keyLess(a, b string) bool {
